@@ -63,6 +63,9 @@ def case_strategy(draw):
     elif opt == 'placed':
         nb = draw(st.integers(0, 12))
         kw['placed'] = sorted(set(lo + span * (0.5 * (1 + draw(uf)) * 1.4 - 0.2) for _ in range(nb)))
+    if opt == 'placed' and len(kw['placed']) >= 3 and draw(st.booleans()):
+        # positions exactly on the data ends (placed = linspace(min, max, k)): they are inside the range, not outside (D51)
+        kw['placed'] = sorted(set([lo] + kw['placed'][1:-1] + [lo + span]))
     bk_int = False
     if opt in ('bkpt', 'placed') and span >= 10 and draw(st.integers(0, 2)) == 0:
         # whole-number breakpoints held in an integer array (np.arange(0, 101, 10)); the data ends are not whole numbers (D44)
@@ -143,6 +146,15 @@ def body(case):
         if nord > 1:
             check(bool(np.all(t[:nord - 1] <= lo) and np.all(t[len(t) - nord + 1:] >= hi)), 'knots:padding-inside-range')
         check(np.asarray(b.mask).shape == t.shape and bool(np.all(b.mask)), 'knots:mask-not-all-true')
+        if case['opt'] == 'placed' and not case.get('bk_int'):
+            # "precalculated breakpoint positions": those inside the data range are the breakpoints; only the outermost two may have
+            # been moved onto the data ends
+            pin = np.sort(kw['placed'][(kw['placed'] >= x.min()) & (kw['placed'] <= x.max())])
+            if len(pin) >= 3:
+                inner_t = t[nord - 1:len(t) - nord + 1]
+                check(all(bool(np.any(inner_t == p)) for p in pin[1:-1]), 'knots:placed-position-inside-the-data-range-dropped',
+                      lambda: dict(placed=kw['placed'].tolist(), breakpoints=inner_t.tolist(), data=[float(x.min()), float(x.max())]))
+                note_label('placed-kept')
         if case['opt'] == 'bkspace':
             # the documented meaning of the option: breakpoints `bkspace` apart.  When the spacing divides the data range exactly
             # (the quotient is a whole number in double precision) there are range/bkspace + 1 of them, exactly that far apart
@@ -180,6 +192,8 @@ def body(case):
             edt = 'i8'
         evi = evi.astype(edt)
         note_label('eval-dtype:' + edt)
+        if np.dtype(edt).itemsize <= 2:
+            f4 = True          # 16-bit integers combine with the single-precision breakpoints in single precision: that accuracy is asked for
         ev = evi.astype('f8')
         y, m = call(b.value, evi.copy())
     elif f4:
